@@ -830,6 +830,12 @@ func ruleCmpSpec(c *Ctx) {
 				c.unm(key, shape.pos, "%s: `%s` has the reviewed shape; read through its locals it compares %s (a value computed by a helper of the package), which this rule cannot relate to the reviewed %s — spec: %s", g.fn, shape.text, canonCut(shape.pr, shape.op), g.entries[0].res, specStr)
 				continue
 			}
+			if shape != nil && cmpOnLiteralParam(g.fn, shape.pos) {
+				// the comparison stands in a function literal and tests the literal's own parameter (isMajority :=
+				// func(n uint64) bool { return n<<1 > period }): what it compares is decided where the literal is called
+				c.unm(key, shape.pos, "%s: `%s` has the reviewed shape but stands in a function literal and tests its parameter: what is compared is decided at its call sites, which this rule does not follow — spec: %s", g.fn, shape.text, specStr)
+				continue
+			}
 			if shape != nil {
 				c.bad(key, shape.pos, "%s: the spec's comparison (%s) is not made; `%s` has its shape but, read through its locals, compares %s where the reviewed code compares %s: another value of the same type was put in an operand's place", g.fn, specStr, shape.text, canonCut(shape.pr, shape.op), g.entries[0].res)
 				continue
@@ -1600,6 +1606,27 @@ func refusalOpFrom(info *types.Info, fd *ast.FuncDecl, parents map[ast.Node]ast.
 						return true
 					}
 				}
+				// a function with a named error result and a single exit refuses by setting that result:
+				// `} else { err = fmt.Errorf(…) }` … `return err`
+				if as, ok := b.List[len(b.List)-1].(*ast.AssignStmt); ok && len(as.Lhs) == 1 && len(as.Rhs) == 1 && as.Tok == token.ASSIGN {
+					if id, ok := ast.Unparen(as.Lhs[0]).(*ast.Ident); ok && fd.Type.Results != nil {
+						isNamedErr := false
+						for _, fl := range fd.Type.Results.List {
+							for _, nm := range fl.Names {
+								if info.Defs[nm] == info.ObjectOf(id) && isErrorT(info.TypeOf(fl.Type)) {
+									isNamedErr = true
+								}
+							}
+						}
+						if isNamedErr {
+							if cl, ok := ast.Unparen(as.Rhs[0]).(*ast.CallExpr); ok {
+								if f := calleeFunc(info, cl); f != nil && f.Pkg() != nil && (f.Pkg().Path() == "fmt" || f.Pkg().Path() == "errors") {
+									return true
+								}
+							}
+						}
+					}
+				}
 				if !refusalBlock(info, b, fd) {
 					return false
 				}
@@ -2089,4 +2116,44 @@ func recvArg(hd cmpDecl, call *ast.CallExpr, callerRecv types.Object, callerInfo
 		return
 	}
 	subst[ro] = sel.X
+}
+
+// cmpOnLiteralParam: the comparison at pos in fn stands inside a function literal and mentions one of that literal's
+// parameters.
+func cmpOnLiteralParam(fn string, pos token.Pos) bool {
+	d, ok := cmpDecls[fn]
+	if !ok || d.fd == nil || d.fd.Body == nil {
+		return false
+	}
+	info := d.pk.TypesInfo
+	res := false
+	var lits []*ast.FuncLit
+	ast.Inspect(d.fd.Body, func(n ast.Node) bool {
+		if n == nil {
+			return false
+		}
+		if fl, ok := n.(*ast.FuncLit); ok && fl.Pos() <= pos && pos < fl.End() {
+			lits = append(lits, fl)
+		}
+		if be, ok := n.(*ast.BinaryExpr); ok && be.Pos() == pos && len(lits) > 0 {
+			params := map[types.Object]bool{}
+			for _, fl := range lits {
+				if fl.Type.Params != nil {
+					for _, f := range fl.Type.Params.List {
+						for _, nm := range f.Names {
+							params[info.Defs[nm]] = true
+						}
+					}
+				}
+			}
+			ast.Inspect(be, func(k ast.Node) bool {
+				if id, ok := k.(*ast.Ident); ok && params[info.Uses[id]] {
+					res = true
+				}
+				return !res
+			})
+		}
+		return !res
+	})
+	return res
 }
